@@ -1054,12 +1054,15 @@ func sys_allStacks() string {
 	return string(buf[:n])
 }
 
-// sys_classifyHang names the known hang shapes by what the stuck goroutines are doing.
+// sys_classifyHang names the known hang shapes by what the stuck goroutines are doing. The
+// F38a shape is narrow: a caller waits in request.Wait although neither doWrites nor a
+// writeRequests activity exists any more (the request entered writeCh after doWrites exited).
 func sys_classifyHang(call, dump string) string {
+	noWriter := !strings.Contains(dump, "(*DB).doWrites") && !strings.Contains(dump, "(*DB).writeRequests")
 	switch {
-	case strings.Contains(dump, "(*request).Wait"):
+	case strings.Contains(dump, "(*request).Wait") && noWriter && strings.Contains(call, "closing"):
 		return "[F38a:late-sender] " + call + " never returned: its request entered writeCh after doWrites had exited (req.Wait blocks for ever)"
-	case strings.Contains(dump, "(*WaterMark).WaitForMark"):
+	case strings.Contains(dump, "(*WaterMark).WaitForMark") && noWriter:
 		return "[C38-timeout-readts] " + call + " did not return within the time bound: blocked in WaterMark.WaitForMark after the oracle was stopped"
 	}
 	return "[C38-timeout] " + call + " did not return within the time bound"
@@ -1340,7 +1343,7 @@ func sys_stress(kv map[string]string, st *Stats) (samples []string, fails []stri
 		notePanic("Close", p)
 	}()
 	okC := waitOr(&wgC, "closing with writes in flight")
-	okW := okC && waitOr(&wgW, "waiting for the writers that were in flight during Close")
+	okW := okC && waitOr(&wgW, "closing: waiting for the writers that were in flight during Close")
 	stopAll.Store(true)
 	close(stopSamp)
 	<-sampDone
